@@ -10,6 +10,7 @@ import (
 	"os"
 	"path/filepath"
 	"strings"
+	"sync"
 	"sync/atomic"
 
 	"github.com/ErdemOzgen/blackdagger/internal/agent"
@@ -17,6 +18,8 @@ import (
 	"github.com/ErdemOzgen/blackdagger/internal/dag"
 	"github.com/ErdemOzgen/blackdagger/internal/persistence"
 	dsclient "github.com/ErdemOzgen/blackdagger/internal/persistence/client"
+	"github.com/ErdemOzgen/blackdagger/internal/persistence/jsondb"
+	"github.com/ErdemOzgen/blackdagger/internal/persistence/local"
 	"github.com/ErdemOzgen/blackdagger/internal/persistence/model"
 	"github.com/ErdemOzgen/blackdagger/verifharness/sim"
 )
@@ -27,6 +30,9 @@ type Home struct {
 	Executable                   string
 	DS                           persistence.DataStores
 	Cli                          client.Client
+
+	mu      sync.Mutex
+	tracked []*trackedStores
 }
 
 var reqSeq atomic.Int64
@@ -54,11 +60,67 @@ func NewHome(executable string) (*Home, error) {
 // NewDataStores returns a fresh instance of the real stores over the same
 // directories (a different process would have its own).
 func (h *Home) NewDataStores() persistence.DataStores {
-	return dsclient.NewDataStores(h.DAGs, h.Data, h.Flags, dsclient.DataStoreOptions{LatestStatusToday: false})
+	t := &trackedStores{inner: dsclient.NewDataStores(h.DAGs, h.Data, h.Flags, dsclient.DataStoreOptions{LatestStatusToday: false})}
+	h.mu.Lock()
+	h.tracked = append(h.tracked, t)
+	h.mu.Unlock()
+	return t
 }
 
-// Cleanup removes the home.
-func (h *Home) Cleanup() { os.RemoveAll(h.Dir) }
+// trackedStores remembers which of the lazily created stores exist, so that
+// Cleanup can end their cache eviction goroutines (each keeps its cache — and
+// every definition cached in it — alive for the life of the process; a test
+// process creates thousands of store instances where a real one creates one).
+type trackedStores struct {
+	inner    persistence.DataStores
+	mu       sync.Mutex
+	hist     persistence.HistoryStore
+	dagStore persistence.DAGStore
+}
+
+func (t *trackedStores) HistoryStore() persistence.HistoryStore {
+	t.mu.Lock()
+	defer t.mu.Unlock()
+	if t.hist == nil {
+		t.hist = t.inner.HistoryStore()
+	}
+	return t.hist
+}
+
+func (t *trackedStores) DAGStore() persistence.DAGStore {
+	t.mu.Lock()
+	defer t.mu.Unlock()
+	if t.dagStore == nil {
+		t.dagStore = t.inner.DAGStore()
+	}
+	return t.dagStore
+}
+
+func (t *trackedStores) FlagStore() persistence.FlagStore { return t.inner.FlagStore() }
+
+func (t *trackedStores) stop() {
+	t.mu.Lock()
+	defer t.mu.Unlock()
+	if j, ok := t.hist.(*jsondb.JSONDB); ok && j != nil {
+		j.VerifStop()
+	}
+	if t.dagStore != nil {
+		local.VerifStop(t.dagStore)
+	}
+	t.hist, t.dagStore = nil, nil
+}
+
+// Cleanup removes the home and releases the stores created through it.
+func (h *Home) Cleanup() {
+	h.mu.Lock()
+	ts := h.tracked
+	h.tracked = nil
+	h.mu.Unlock()
+	for _, t := range ts {
+		t.stop()
+	}
+	os.RemoveAll(h.Dir)
+}
 
 // WriteDAG writes a definition file and returns its path.
 func (h *Home) WriteDAG(name, yaml string) (string, error) {
